@@ -25,6 +25,11 @@ pub struct Case {
     /// long history: the lines are repeated this many times and the batch comparison is made at the listed prefixes only
     #[serde(default)]
     pub long: Option<(usize, Vec<usize>)>,
+    /// statements with a JOIN (engine level: the follow executor of the command line refuses them)
+    #[serde(default)]
+    pub joined: Option<DataTable>,
+    #[serde(default)]
+    pub joined_lines: Vec<String>,
 }
 
 pub struct C11;
@@ -44,7 +49,7 @@ impl Property for C11 {
     }
 
     fn rule(&self) -> String {
-        "a statement without LIMIT (plain, DISTINCT, aggregate +- GROUP BY +- HAVING +- DISTINCT, wrappers) x 1-14 lines including non-admitted and filtered ones (one case in 25: the lines repeated to 150-1500, compared at eight prefixes). Oracle: one long-lived ExecutionEngine \
+        "a statement without LIMIT (plain, DISTINCT, aggregate +- GROUP BY +- HAVING +- DISTINCT, wrappers, a quarter with a JOIN) x 1-14 lines including non-admitted and filtered ones (one case in 25: the lines repeated to 150-1500, compared at eight prefixes). Oracle: one long-lived ExecutionEngine \
          fed line by line with the default (update + result) configuration, as follow mode does; for EVERY prefix k: aggregate: the table shown after line k (carried over when line k shows none) = the \
          records a fresh FileExecutor batch run prints for the first k lines; non-aggregate: the rows emitted for line k = the suffix by which batch(k) extends batch(k-1). \
          Non-trivial: an aggregate statement with >= 2 refreshes that show >= 2 rows, or a DISTINCT statement with a repeated tuple; distinct by case."
@@ -76,14 +81,15 @@ impl Property for C11 {
 
     fn generate(&self, t: &mut Tape, ctx: &Ctx) -> Case {
         let mut opts = QOpts::all();
-        opts.join = false;
         opts.limit = false;
+        opts.join_share = 2;
         let mut g = gen_query(t, ctx, opts);
         if ctx.excluded("c11_aggregate_distinct") && !g.query.group_by.is_empty() {
             g.query.distinct = false;
         }
         let lines = crate::props::c04::gen_group_lines(t, &g.table, 14);
-        let follow = t.chance(1, 30);
+        let joined_lines = g.joined.as_ref().map(|j| gen_data(t, j, 8)).unwrap_or_default();
+        let follow = g.joined.is_none() && t.chance(1, 30);
         let long = if !follow && lines.len() >= 3 && t.chance(1, 25) {
             // hundreds of refreshes: 150-1500 lines, compared at eight prefixes
             let repeat = (150 + t.draw(1350)) / lines.len() + 1;
@@ -97,11 +103,14 @@ impl Property for C11 {
         } else {
             None
         };
-        Case { table: g.table, query: g.query, lines, follow, long }
+        Case { table: g.table, query: g.query, lines, follow, long, joined: g.joined, joined_lines }
     }
 
     fn check(&self, case: &Case, ctx: &Ctx, obs: &mut Obs) -> Result<(), Failure> {
-        let p = prepare(ctx, &case.table, None, &case.query, &[], "c11")?;
+        let p = prepare(ctx, &case.table, case.joined.as_ref(), &case.query, &case.joined_lines, "c11")?;
+        if case.joined.is_some() {
+            obs.label("join");
+        }
         let context = format!("query: {}\n  table: {}\n  lines: {:?}", p.text, p.defs, case.lines);
         let panic_fail = |m: String| Failure::new(format!("panic: {}", crate::run::panic_class(&m)), format!("panicked: {}\n  {}", m, context));
         let aggregate = p.statement.is_aggregate();
@@ -132,7 +141,20 @@ impl Property for C11 {
             Some((_, points)) => points.contains(&k),
             None => true,
         };
-        let mut engine = ExecutionEngine::new(&p.tables, &p.statement);
+        let mut engine = match crate::run::catch(|| ExecutionEngine::with_executed_joined_table(&p.tables, &p.statement)) {
+            Ok(Ok(e)) => e,
+            Ok(Err(e)) => {
+                // the joined table cannot be set up: the batch run must fail as well
+                let files = scratch_files(ctx, "c11", &[lines_to_bytes(&case.lines)]);
+                let batch = run_batch(&p.tables, &p.statement, &files, RunOptions::default()).map_err(panic_fail)?;
+                if batch.result.is_err() {
+                    obs.unspecified += 1;
+                    return Ok(());
+                }
+                return Err(Failure::new(format!("incremental-error-only: {}", kind), format!("the engine cannot be set up ({}) but the batch run succeeds\n  {}", e, context)));
+            }
+            Err(p) => return Err(panic_fail(p)),
+        };
         // what the follow executor is expected to print: per refreshing line the table (aggregate) / the emitted rows
         let mut transcript: Vec<Vec<String>> = Vec::new();
         let mut shown: Vec<String> = Vec::new(); // aggregate: current table; select: all rows so far
@@ -231,7 +253,7 @@ impl Property for C11 {
             let mut q = case.query.clone();
             q.distinct = false;
             // repeated tuple: the plain statement prints more rows than the DISTINCT one
-            match prepare(ctx, &case.table, None, &q, &[], "c11") {
+            match prepare(ctx, &case.table, case.joined.as_ref(), &q, &case.joined_lines, "c11") {
                 Ok(pp) => {
                     let files = scratch_files(ctx, "c11", &[lines_to_bytes(&case.lines)]);
                     run_batch(&pp.tables, &pp.statement, &files, RunOptions::default()).map(|r| r.records().len() > shown.len()).unwrap_or(false)
